@@ -432,7 +432,7 @@ PROPS = {
                            "Rodbus.C15Net.refused_after_shutdown"],
         suites=[dict(gen="trk", n=(3000, 200000),
                      exhaustive="all op sequences of length <= 4 (5 thorough) over {add, remove 0, remove 1, remove 2} for max_sessions 0..4"),
-                dict(gen="net", n=(60, 1500), jobs=16)],
+                dict(gen="net", n=(60, 1500), jobs=16), dict(gen="srv_edge", n=(1, 1), exhaustive="a session whose command sender is dropped (eviction, shutdown, handle drop) while 20000 / 3000 complete requests of its peer are ready must end without serving the backlog")],
         level_text="Proof: tracker_bound (for every add/remove sequence the number of live sessions is <= max(1,max_sessions)), evicts_oldest "
                    "(a full tracker evicts exactly the smallest id = the earliest-added live session, ids strictly increase), remove_absent "
                    "(late removal of an evicted id is a no-op), fresh_id. Tie: the production SessionTracker is driven through the verif hook on "
@@ -485,7 +485,7 @@ PROPS = {
                            "Rodbus.C01.write_echo", "Rodbus.C01.session_replies", "Rodbus.Tables.fc_table_correct",
                            "Rodbus.Tables.exception_roundtrip", "Rodbus.Tables.server_limits_correct",
                            "Rodbus.C01Stream.stream_replies", "Rodbus.C01Stream.session_chunking_independent",
-                           "Rodbus.C01W.write_failure_wire", "Rodbus.C01W.write_failure_session", "Rodbus.C01W.write_failure_prefix"],
+                           "Rodbus.C01W.write_failure_wire", "Rodbus.C01W.write_failure_wire_spec", "Rodbus.C01W.write_failure_session", "Rodbus.C01W.write_failure_prefix"],
         suites=[dict(gen="srv_wfail", n=(300, 30000), exhaustive="failing transport write: every fault position 0..6 of fixed six-request sessions (TCP incl. unknown function and unconfigured unit; RTU incl. a broadcast), frame-by-frame and in one segment"),
                 dict(gen="srv_tcp", n=(2500, 150000),
                      exhaustive="MBAP: every function byte 0..255 x payload lengths {0,1,3,4,5,6} (0..12 thorough) x {configured, unconfigured} unit; "
@@ -601,7 +601,7 @@ PROPS = {
                            "Rodbus.C07.range_addresses_fit", "Rodbus.C07.reader_errors_are_protocol_errors",
                            "Rodbus.no_spurious_eof", "Rodbus.C06.no_spurious_eof", "Rodbus.C06.peek_in_bounds",
                            "Rodbus.C01W.write_failure_ends_session", "Rodbus.C01W.write_failure_unreached"],
-        suites=[dict(gen="srv_wfail", n=(300, 30000)), dict(gen="srv_fuzz", n=(3000, 400000)), dict(gen="rdr_fuzz", n=(3000, 400000)),
+        suites=[dict(gen="srv_wfail", n=(300, 30000)), dict(gen="srv_edge", n=(1, 1), exhaustive="flooding peer (20000 / 3000 ready requests) with a Shutdown command queued at the same moment, both framings; commands cancelling reads at the buffer boundary; handler-mutex contention"), dict(gen="srv_fuzz", n=(3000, 400000)), dict(gen="rdr_fuzz", n=(3000, 400000)),
                 dict(gen="cl_fuzz", n=(800, 100000)),
                 dict(gen="srv_tcp", n=(800, 50000)), dict(gen="srv_rtu", n=(800, 50000)), dict(gen="net", n=(6, 200), jobs=16), dict(gen="pty_srv", n=(40, 600), jobs=16)],
         level_text="Proof for the modelled logic: bounds at the arithmetic/indexing sites mirrored from the Rust code (range_addresses_fit, "
